@@ -142,6 +142,29 @@ Proof.
   - unfold bind. destruct (body a kw s) as [[v|e] s'] eqn:Eb; auto. apply _add_to_cache_ignore_args_spec. eapply Hb; eauto.
 Qed.
 
+(* a @cached call touches no entry of the object's cache but the one under its own key (name, args, pickle(kwargs)):
+   whatever else changes, the method body changed it *)
+Lemma cached_frame method nm body a kw s K' :
+  lvalid s -> (forall r s', body a kw s = (r, s') -> lvalid s') ->
+  K' <> KFull (name_of_opt nm method) a kw ->
+  d_get (dict_of (lget (snd (py__cached method nm body a kw s)))) K' =
+  match d_get (dict_of (lget s)) (KFull (name_of_opt nm method) a kw) with
+  | Some _ => d_get (dict_of (lget s)) K'
+  | None => d_get (dict_of (lget (snd (body a kw s)))) K'
+  end.
+Proof.
+  intros Hv Hb Hne. rewrite (cached_spec _ _ _ _ _ _ Hv Hb). cbv zeta.
+  destruct (d_get (dict_of (lget s)) (KFull (name_of_opt nm method) a kw)); [reflexivity|].
+  destruct (body a kw s) as [[v|e] s'] eqn:Eb; cbn [fst snd]; [|reflexivity].
+  rewrite get_put by (eapply Hb; eauto). simpl. apply d_get_set_neq. congruence.
+Qed.
+
+(* distinct (args, kwargs) give distinct keys, and a bare (ignore_args) key is never a full key *)
+Lemma key_injective (n n' : name) a a' kw kw' : KFull n a kw = KFull n' a' kw' -> n = n' /\ a = a' /\ kw = kw'.
+Proof. intros E. inversion E. auto. Qed.
+Lemma key_bare_full (n n' : name) a kw : KName n <> KFull n' a kw.
+Proof. discriminate. Qed.
+
 Lemma cached_dispatch method nm ig :
   py_cached method nm ig = if ig then py__cached_ignore_args method nm else py__cached method nm.
 Proof. reflexivity. Qed.
